@@ -432,7 +432,8 @@ def _gen_c07(rng, max_stages):
 
         def name(kind):
             cnt[0] += 1
-            return f"vmod.r{j}{'abcdefgh'[cnt[0] % 8]}{cnt[0]}" if kind == "fn" else f"v{j}_{cnt[0]}"
+            # (scalars are importable names too: a string merged onto a function node becomes its target)
+            return f"vmod.r{j}{'abcdefgh'[cnt[0] % 8]}{cnt[0]}" if kind == "fn" else f"vmod.r{j}s{cnt[0]}"
 
         def unsafe(sd):
             if rng.random() < 0.25:
@@ -523,7 +524,7 @@ EVAL = {
         "exh": {"quick": [("C07_Docs", 1, 2, "C07_Range")], "thorough": [("C07_Docs", 1, 2, "C07_Range"), ("C07_Docs3", 3, 3, "C07_Range3")]},
         "mutations": [{"switch": "DefaultSafeOverwrite", "docs": "C07_Docs", "range": "C07_Range", "stages": (2, 2), "expect": ["Inv_C07_Trees", "Inv_C07_Eval"]},
                       {"mutation": "NoArgGate", "docs": "C07_Docs", "range": "C07_Range", "stages": (1, 1), "expect": ["Inv_C07_Eval"]},
-                      {"mutation": "NoFnGate", "docs": "C07_Docs", "range": "C07_Range", "stages": (1, 1), "expect": ["Inv_C07_Eval"]}],
+                      {"mutation": "NoFnGate", "docs": "C07_Docs", "range": "C07_Range", "stages": (2, 2), "expect": ["Inv_C07_Eval"]}],
         "gen": _gen_c07, "random": {"quick": 1500, "thorough": 25000}, "max_stages": 3,
         "nontrivial": _c07_nontrivial,
         "rule": "A: first documents with a !call / !bind / !import / placeholder at f (argument static, cross-referenced, a nested call; "
